@@ -41,5 +41,6 @@ registry! {
     c13::C13,
     c14::C14,
     c15::C15,
+    c16::C16,
     c17::C17,
 }
